@@ -30,7 +30,7 @@ def run(rep):
     sites = who_constructs(prog, VBM)
     rep.floor("VerifiedBlindedMessage construction sites", len(sites), 1)
     for b, bi, s in sites:
-        root = root_body(prog, b)
+      for root in owners_of(prog, b, stop=lambda r: r.id == v.id):
         if root.id == v.id:
             rep.ok("who-may-construct", "%s" % root.desc["qpath"], sample="constructed in %s" % b.path)
         elif is_preserving_copy(prog, b, VBM):
